@@ -24,7 +24,7 @@ func TestVerifC04FirstUse(t *testing.T) {
 	defer r.Close()
 	trial := hk.ChildIndex()
 	if trial < 0 {
-		ran, failed := hk.RunChildren("TestVerifC04FirstUse", hk.N(44, 160))
+		ran, failed := hk.RunChildren("TestVerifC04FirstUse", hk.N(120, 400))
 		r.Count("fresh_process_trials", int64(ran))
 		for _, f := range failed {
 			r.Inconclusive("first-use child: " + f)
